@@ -677,6 +677,9 @@ func (m *machine) origin(d *gen.VarDecl) (Value, *Fail) {
 			m.res.Needed[Pair{a, as}] = true
 		}
 		b := m.bal(a, as)
+		if a == "world" {
+			b = zero() // never requested (C10): whatever the store holds is not seen
+		}
 		if c.Name == "balance" {
 			if b.Sign() < 0 {
 				return nil, fail(ENegativeBalance, "@%s", a)
